@@ -116,52 +116,6 @@ Definition slot_hint_value (props : list node) : option N :=
                            | _ => acc
                            end) None props.
 
-Fixpoint needs_dynamic (fuel : nat) (unres : N) (x : node) {struct fuel} : bool :=
-  match fuel with
-  | O => false
-  | S f =>
-      let inner := fun (call : node) =>
-        match call with
-        | Call true _ (Ident _ _ _) (Elem false _ :: Elem false _ :: Elem false ch :: _) _ =>
-            match ch with
-            | Arr es => existsb (needs_dynamic f unres) es
-            | Obj props => match default_slot_elems props with Some es => existsb (needs_dynamic f unres) es | None => false end
-            | Cond _ _ (Obj props) =>
-                match default_slot_elems props with Some es => existsb (needs_dynamic f unres) es | None => false end
-            | _ => false
-            end
-        | _ => false
-        end in
-      match x with
-      | Elem _ e =>
-          bound_ident unres e
-          || inner e
-          || match e with
-             | Call true _ _ (Elem false c :: Elem false (Arr _) :: nil) _ => inner c    (* withDirectives(call, [...]) *)
-             | _ => false
-             end
-      | _ => false
-      end
-  end.
-
-Definition slot_dynamic_code (unres : N) (n : node) : bool :=
-  let chk := fun (props : list node) =>
-    match default_slot_elems props, slot_hint_value props with
-    | Some es, Some h => if existsb (needs_dynamic 30 unres) es then N.eqb h 2 else true
-    | _, _ => true
-    end in
-  match n with
-  | Call true _ (Ident _ _ _) (Elem false _ :: Elem false _ :: Elem false ch :: _) _ =>
-      match ch with
-      | Obj props => chk props
-      | Cond _ _ (Obj props) => chk props
-      | _ => true
-      end
-  | _ => true
-  end.
-
-Definition slot_dynamic_ok (unres : N) (out : node) : bool := forallb (slot_dynamic_code unres) (subs out).
-
 (* per node: 0 fine, otherwise the failure code (+10 when the host is Fragment/KeepAlive and
    the only problem is an uncovered class/style: the known class C13/class_on_builtin_host) *)
 Definition oracle_C13_code (n : node) : N :=
